@@ -126,13 +126,13 @@ def to_schedule(hist, c):
 _INV = re.compile(r"Invariant (\w+) is violated")
 
 
-def run_config(c, wd, log, seed=0, timeout=3000):
+def run_config(c, wd, log, seed=0, timeout=3000, workers=None):
     mod = write_config(wd, c)
     t0 = time.time()
     sim = None
     if c["mode"] == "sim":
         sim = "num=%d" % c["num"]
-    rc, out = common.tlc(mod, mod + ".cfg", wd_spec(wd), workers=common.NCPU, timeout=timeout, simulate=sim,
+    rc, out = common.tlc(mod, mod + ".cfg", wd_spec(wd), workers=workers or common.NCPU, timeout=timeout, simulate=sim,
                          depth=c["depth"] if sim else None, extra=(["-seed", str(seed + 1)] if sim else []))
     hists = common.parse_printed_json(out, "SCHED")
     states, trans = common.tlc_stats(out)
@@ -206,8 +206,15 @@ def model_check(tier, seed, wd, log):
     runs, violations, scheds = [], [], []
     mwd = os.path.join(wd, "l1")
     os.makedirs(mwd, exist_ok=True)
-    for c in configs(tier):
-        info, ss = run_config(c, mwd, log, seed)
+    # exhaustive configurations run four at a time (4 TLC workers each: most are dominated by JVM start-up); the simulation
+    # configurations keep all workers to themselves (their "num" is per worker)
+    from multiprocessing.pool import ThreadPool
+    cs = configs(tier)
+    bfs = [c for c in cs if c["mode"] != "sim"]
+    with ThreadPool(4) as tp:
+        res = dict(zip([c["name"] for c in bfs], tp.map(lambda c: run_config(c, mwd, log, seed, workers=max(1, common.NCPU // 4)), bfs)))
+    for c in cs:
+        info, ss = res[c["name"]] if c["name"] in res else run_config(c, mwd, log, seed)
         runs.append(info)
         for inv in info["violated"]:
             if inv.endswith("_OK"):
@@ -232,6 +239,7 @@ def generate(tier, seed, wd, log):
         seen.add(k)
         out.append(s)
     cap = {"quick": 9000, "thorough": 200000}[tier]
+    out.sort(key=lambda s: json.dumps([s["cfg"], s["cmds"]], sort_keys=True))      # (TLC prints in a worker-dependent order)
     if len(out) > cap:
         import random
         rng = random.Random(seed)
